@@ -27,3 +27,15 @@ check("C19", "exploration", "runtime monitoring: reference-model monitor (set of
       "wildcard pattern) are compared with an executable model.",
       "Trusted: vlib/refstore.py as the meaning of the statement; put(CLSE) on a pair with nothing pending is deliberately left open (both outcomes accepted).",
       "DESIGN.md section 4 C19")
+check("C17", "exploration", "runtime monitoring: independent verification oracle (pure-integer RSA + second library) on freshly generated real key files",
+      "Real keygen() output on disk is decoded independently and checked algebraically against the private key; every shipped signer signs random and extreme "
+      "20-byte tokens and each signature is verified as adbd verifies it (PKCS#1 v1.5 over the token as SHA-1 digest) with integer arithmetic and with "
+      "cryptography's verifier; the three signers must agree byte for byte.",
+      "Trusted: Python big-integer arithmetic, the cryptography package as PEM loader and cross-checking verifier, the AOSP description of adbd's verification.",
+      "DESIGN.md section 4 C17")
+check("C13", "exploration", "runtime monitoring: one-boolean model monitor over exhaustively enumerated API histories, transport write log and sandbox directory as observation points",
+      "All sequences up to length 3 (quick) / 4 (thorough) over 19 symbols (5 kinds of connect, close, 9 operations, 4 empty-path operations) plus random longer ones run on "
+      "both implementations; after every step `available` is compared with the model, during every connect attempt it is sampled at each transport call and in the auth callback, "
+      "and a disconnected operation must raise the documented error without a byte written or a file created.",
+      "Trusted: the in-memory transport's write log; the interpretation that either documented exception is acceptable when both apply.",
+      "DESIGN.md section 4 C13")
